@@ -42,6 +42,8 @@ def oracle_c14(sc, res):
     pending_calls = {}
     dead_tags = set()
     generation = 0
+    generation_of_stop = 0
+    stop_time = None
     inflight_worker = None
     for r in res.trace:
         k = r[K]
@@ -73,6 +75,8 @@ def oracle_c14(sc, res):
                                           f"stop() raised {out[1]}: {out[3]}"))
                 elif stop_returned is None and call is not None and call[8] not in ("uninitialized",):
                     stop_returned = r[SEQ]
+                    stop_time = r[T]
+                    generation_of_stop = generation
                 if r[7] not in ("stopped", "uninitialized"):
                     vios.append(Violation("C14", "status-after-stop", {"engine": eng, "status": r[7]}, f"after stop() status is {r[7]}"))
             elif r[5] == "start" and call is not None:
@@ -95,16 +99,28 @@ def oracle_c14(sc, res):
             st = r[6]
         elif k == "obs" and r[5] == root:
             st = r[6]["status"]
-            if stop_returned is not None and r[SEQ] > stop_returned and r[6]["census"]:
+            zombies = [i_ for i_ in (r[6].get("interps") or ()) if i_[1] == "running" and i_[2] is not None]
+            if stop_returned is not None and r[SEQ] > stop_returned and zombies and status == "stopped" and generation_of_stop == generation:
+                vios.append(Violation("C14", "alive-after-stop", {"engine": eng, "preempted": preempted,
+                                                                  "stop_from_action": stopped_inside is not None, "what": "interpreter"},
+                                      f"after stop() returned: descendant interpreters still running {zombies[:3]} (observation {r[4]})"))
+                stop_returned = None
+            census_now = r[6]["census"] or ()
+            if stop_returned is not None and stop_time is not None and r[T] <= stop_time + 10_000:
+                # a sync actor's polling thread notices the stop at its next poll (<= 10 ms later): judged after that
+                census_now = tuple(c_ for c_ in census_now if not str(c_).startswith("actor-"))
+            if stop_returned is not None and r[SEQ] > stop_returned and census_now:
                 vios.append(Violation("C14", "alive-after-stop", {"engine": eng, "preempted": preempted,
                                                                   "stop_from_action": stopped_inside is not None,
-                                                                  "what": ",".join(sorted(set(_classify(c) for c in r[6]["census"])))},
-                                      f"after stop() returned: still alive {r[6]['census']} (observation {r[4]})"))
+                                                                  "what": ",".join(sorted(set(_classify(c) for c in census_now)))},
+                                      f"after stop() returned: still alive {census_now} (observation {r[4]})"))
                 stop_returned = None  # report once
         elif k == "act-stop" and r[4] == root:
             stopped_inside = r[SEQ]
             if stop_returned is None:
                 stop_returned = r[SEQ]
+                stop_time = r[T]
+                generation_of_stop = generation
         if st is not None and st != status:
             if (status, st) not in ALLOWED:
                 vios.append(Violation("C14", "illegal-status-move", {"engine": eng, "from": status, "to": st, "preempted": preempted},
